@@ -203,7 +203,7 @@ def c04(run):
 
 
 def c05(run):
-    return generic_check(run, [], [],
+    return generic_check(run, [("MC_chaos_w2.cfg", "MC_chaos.tla", {"timeout": 300})], [("MC_chaos_w2t.cfg", "MC_chaos.tla", {"timeout": 1500, "workers": 12})],
         [("chaos", ["map:kv16:zero:16:1200:wide:chaos=1", "map:kv16:collide:20:600:wide:chaoseq=1", "map:k4v4:zero:14:500:basic:chaos=1,chaoseq=1"]),
          ("chaos2", ["map:kv24:fewpos:24:900:iter:chaos=1", "map:kv16:max:16:700:two:chaos=1", "map:kv16:zero:14:500:entry:chaoseq=1"]),
          ("chaosset", ["set:k8t:zero:16:800:set:chaos=1", "set:k8t:collide:16:600:setalg:chaoseq=1", "set:k8t:zero:14:500:setalg:chaos=1,chaoseq=1"]),
@@ -211,7 +211,9 @@ def c05(run):
          {"name": "chaosgoals_w16", "backend": "sse2", "args": ["replay", "--seed", "@SEED@", "corpus/map_w16_chaos.ndjson"]}],
         [("chaos3", ["map:kv16:zero:16:6000:wide:chaos=1", "map:kv200:collide:20:3000:wide:chaos=1,chaoseq=1", "map:kva64:zero:14:2000:cap:chaos=1"]),
          ("chaosg", ["map:kv16:zero:16:3000:wide:chaos=1", "map:kv16:collide:20:2000:entry:chaoseq=1"], G)],
-        "hash functions / equality predicates that give a fresh pseudo-random answer on every call (answers logged); the safety subset of the "
+        "model: from the unallocated table and from lawfully built tombstone-saturated tables, every operation under EVERY sequence of hasher answers "
+        "(each invocation, incl. every re-hash during growth and in-place rehash, answers arbitrarily) keeps the safety subset of the invariant; "
+        "code (maps, sets, tables): hash functions / equality predicates that give a fresh pseudo-random answer on every call (answers logged); the safety subset of the "
         "invariant, len = stored elements and exactly-once drops are validated after every call; the concrete operators fed with the logged "
         "answers reproduce the observed state (strict); per-process watchdog for termination")
 
